@@ -45,6 +45,9 @@ pub struct Report {
     pub classes: BTreeMap<String, u64>,
     pub counters: BTreeMap<String, u64>,
     pub excluded_known: BTreeMap<String, u64>,
+    /// first case (and engine) that hit each listed signature
+    #[serde(default)]
+    pub known_examples: BTreeMap<String, (String, J)>,
     pub known_reproduced: Vec<String>,
     pub failures: Vec<Failure>,
     pub exhaustive: Vec<String>,
@@ -131,6 +134,10 @@ impl Ctx {
         base + extra
     }
     pub fn is_known(&self, sig: &str) -> bool {
+        // development aid: list every signature a search produces instead of stopping at the first
+        if std::env::var("NV_COLLECT_SIGS").is_ok() {
+            return true;
+        }
         self.known.iter().any(|k| k.status == "known" && k.property == self.property && k.sig == sig)
     }
     /// fresh directory for one case (caller removes it through `drop_dir`)
@@ -164,6 +171,8 @@ pub struct Outcome {
     pub classes: Vec<&'static str>,
     pub counters: Vec<(&'static str, u64)>,
     pub fail: Option<(String, String)>,
+    /// sub-cases (e.g. crash images) that hit a listed known finding and were excluded, by signature
+    pub known_image_hits: BTreeMap<String, u64>,
 }
 
 impl Outcome {
@@ -192,13 +201,19 @@ pub fn hash_json<T: Serialize>(t: &T) -> u64 {
     h.finish()
 }
 
-fn record<C: Serialize>(rep: &mut Report, case: &C, out: &Outcome) {
+fn record<C: Serialize>(rep: &mut Report, engine: &str, case: &C, out: &Outcome) {
     rep.evaluations += 1;
     for c in &out.classes {
         rep.class(c);
     }
     for (k, n) in &out.counters {
         rep.count(k, *n);
+    }
+    for (k, n) in &out.known_image_hits {
+        *rep.excluded_known.entry(k.clone()).or_insert(0) += n;
+        if !rep.known_examples.contains_key(k) {
+            rep.known_examples.insert(k.clone(), (engine.to_string(), serde_json::to_value(case).unwrap()));
+        }
     }
     if out.nontrivial {
         let j = serde_json::to_value(case).unwrap();
@@ -235,6 +250,7 @@ pub fn guarded<C>(ctx: &Ctx, f: &dyn Fn(&C) -> Outcome, case: &C) -> Outcome {
 fn eval_filtered<C: Serialize>(
     ctx: &Ctx,
     rep: &RefCell<&mut Report>,
+    engine: &str,
     case: &C,
     f: &dyn Fn(&C) -> Outcome,
     count: bool,
@@ -246,13 +262,16 @@ fn eval_filtered<C: Serialize>(
                 let mut r = rep.borrow_mut();
                 r.evaluations += 1;
                 *r.excluded_known.entry(sig.clone()).or_insert(0) += 1;
+                if !r.known_examples.contains_key(sig) {
+                    r.known_examples.insert(sig.clone(), (engine.to_string(), serde_json::to_value(case).unwrap()));
+                }
             }
             return None;
         }
         return Some((sig.clone(), detail.clone()));
     }
     if count {
-        record(&mut rep.borrow_mut(), case, &out);
+        record(&mut rep.borrow_mut(), engine, case, &out);
     }
     None
 }
@@ -290,7 +309,7 @@ where
     let repc = RefCell::new(rep);
     let result = runner.run(&strat, |case| {
         let counting = !failed.get();
-        match eval_filtered(ctx, &repc, &case, &f, counting) {
+        match eval_filtered(ctx, &repc, engine, &case, &f, counting) {
             None => Ok(()),
             Some((sig, _)) => {
                 failed.set(true);
@@ -328,7 +347,7 @@ where
         if !mine {
             continue;
         }
-        if let Some((sig, detail)) = eval_filtered(ctx, &repc, &case, &f, true) {
+        if let Some((sig, detail)) = eval_filtered(ctx, &repc, engine, &case, &f, true) {
             repc.borrow_mut().failures.push(Failure { sig, detail, engine: engine.to_string(), case: serde_json::to_value(&case).unwrap(), env: nun_env() });
             clean = false;
             break;
